@@ -102,24 +102,7 @@ func c16PolicyCheck(ctx *vfCtx, c c16PolicyCase) {
 	}
 
 	// is every denied range that contains ip preceded by an unparsable deny entry?
-	denyMatchOnlyAfterBad := false
-	if isIP {
-		seenBad, matchBeforeBad, matchAfterBad := false, false, false
-		for _, s := range c.Deny {
-			p, ok := c16ParsePrefix(s)
-			switch {
-			case !ok:
-				seenBad = true
-			case p.Contains(ip.WithZone("").Unmap()) || p.Contains(ip.WithZone("")):
-				if seenBad {
-					matchAfterBad = true
-				} else {
-					matchBeforeBad = true
-				}
-			}
-		}
-		denyMatchOnlyAfterBad = matchAfterBad && !matchBeforeBad
-	}
+	denyMatchOnlyAfterBad := isIP && c16DenyOnlyAfterBad(c.Deny, ip)
 
 	judge := func(entry string, err error) {
 		allowed := err == nil
@@ -189,6 +172,26 @@ func c16PolicyCheck(ctx *vfCtx, c c16PolicyCase) {
 			ctx.Class("dnscache-dialer:unrestricted-when-unconfigured")
 		}
 	})
+}
+
+// c16DenyOnlyAfterBad: ip lies in a denied range, and every denied range containing it comes after
+// an unparsable entry of the deny list (the input class of the "list walk stops at a typo" defect).
+func c16DenyOnlyAfterBad(deny []string, ip netip.Addr) bool {
+	seenBad, matchBeforeBad, matchAfterBad := false, false, false
+	for _, s := range deny {
+		p, ok := c16ParsePrefix(s)
+		switch {
+		case !ok:
+			seenBad = true
+		case p.Contains(ip.WithZone("").Unmap()) || p.Contains(ip.WithZone("")):
+			if seenBad {
+				matchAfterBad = true
+			} else {
+				matchBeforeBad = true
+			}
+		}
+	}
+	return matchAfterBad && !matchBeforeBad
 }
 
 func c16LastAddr(p netip.Prefix) netip.Addr {
